@@ -137,6 +137,9 @@ pub struct SessionCfg {
     pub buckets: Option<Vec<i64>>,
     pub overrides: Vec<(u8, String, Vec<i64>)>, // 0 full 1 prefix 2 suffix
     pub quantiles: Option<Vec<f64>>,
+    /// C07 only: `set_bucket_duration` (ns) / `set_bucket_count` of the rolling summaries
+    pub bucket_duration_ns: Option<u64>,
+    pub bucket_count: Option<u32>,
 }
 
 fn build(cfg: &SessionCfg) -> (PrometheusRecorder, PrometheusHandle) {
@@ -157,6 +160,12 @@ fn build(cfg: &SessionCfg) -> (PrometheusRecorder, PrometheusHandle) {
     }
     if let Some(q) = &cfg.quantiles {
         b = b.set_quantiles(q).unwrap();
+    }
+    if let Some(ns) = cfg.bucket_duration_ns {
+        b = b.set_bucket_duration(std::time::Duration::from_nanos(ns)).unwrap();
+    }
+    if let Some(c) = cfg.bucket_count {
+        b = b.set_bucket_count(std::num::NonZeroU32::new(c).unwrap());
     }
     let rec = b.build_recorder();
     let h = rec.handle();
@@ -207,6 +216,7 @@ fn pick_lval(r: &mut Rng, fl: Flavour) -> String {
 /// One session. Returns nothing; everything goes to `out`.
 pub fn session(r: &mut Rng, out: &mut Out, fl: Flavour) {
     // ---- configuration
+    let v7 = fl == Flavour::Values;
     let mut globals: Vec<(String, String)> = vec![];
     for _ in 0..r.below(3) {
         let k = pick_lname(r, fl);
@@ -214,6 +224,15 @@ pub fn session(r: &mut Rng, out: &mut Out, fl: Flavour) {
         if sk != "le" && sk != "quantile" && !globals.iter().any(|(g, _)| own_sanitize(g, false) == sk) {
             globals.push((k, pick_lval(r, fl)));
         }
+    }
+    if v7 && !globals.is_empty() && r.chance(1, 3) {
+        // `add_global_label` with a name given before: the label keeps its place and takes the last value
+        // (`globals` is the list of builder calls as made; the model folds it the same way)
+        for _ in 0..r.range(1, 2) {
+            let k = globals[r.below(globals.len())].0.clone();
+            globals.push((k, pick_lval(r, fl)));
+        }
+        out.count("cfg.global_label_repeated");
     }
     let buckets = if r.chance(1, 3) { Some(gen_bounds(r)) } else { None };
     let nover = if fl == Flavour::Buckets { r.below(4) } else { r.below(2) };
@@ -249,10 +268,36 @@ pub fn session(r: &mut Rng, out: &mut Out, fl: Flavour) {
             overrides.push((kind, pat, gen_bounds(r)));
         }
     }
-    let quantiles = if r.chance(1, 4) { Some(vec![0.0, 0.25, 1.0]) } else { None };
-    let cfg = SessionCfg { unit_suffix: r.chance(1, 2), globals, buckets, overrides, quantiles };
+    if v7 && !overrides.is_empty() && r.chance(1, 3) {
+        // the same matcher again (`HashMap::insert`: the later bounds replace the earlier ones), also through a
+        // different spelling with the same sanitised form
+        let (k, p, _) = overrides[r.below(overrides.len())].clone();
+        let p2 = if r.chance(1, 2) { p.replace('.', "_").replace('-', "_") } else { p };
+        overrides.push((k, p2, gen_bounds(r)));
+        out.count("cfg.matcher_repeated");
+    }
+    let mut quantiles = if r.chance(1, 4) { Some(vec![0.0, 0.25, 1.0]) } else { None };
+    let (mut bucket_duration_ns, mut bucket_count) = (None, None);
+    if v7 {
+        if r.chance(1, 6) {
+            // out of range: `Quantile::new` clamps to [0, 1]
+            quantiles = Some(vec![-0.5, 0.5, 1.5]);
+            out.count("cfg.quantiles_out_of_range");
+        }
+        if r.chance(1, 3) {
+            // tiny summary windows: with the real clock every drained sample then meets the time-dependent branches
+            // of `RollingSummary::add` (new bucket, expiry, and — blocks are drained newest first — a time stamp
+            // older than the newest bucket); `_count`/`_sum` must not depend on any of that
+            bucket_duration_ns = Some(*r.pick(&[1u64, 50, 1000, 1_000_000]));
+            if r.chance(1, 2) {
+                bucket_count = Some(*r.pick(&[1u32, 2, 3, 7]));
+            }
+            out.count("cfg.tiny_summary_window");
+        }
+    }
+    let cfg = SessionCfg { unit_suffix: r.chance(1, 2), globals, buckets, overrides, quantiles, bucket_duration_ns, bucket_count };
     let qtexts: Vec<String> = match &cfg.quantiles {
-        Some(q) => q.iter().map(|x| format!("{}", x)).collect(),
+        Some(q) => q.iter().map(|x| format!("{}", x.max(0.0).min(1.0))).collect(),
         None => ["0", "0.5", "0.9", "0.95", "0.99", "0.999", "1"].iter().map(|s| s.to_string()).collect(),
     };
     let (rec, handle) = build(&cfg);
@@ -290,7 +335,21 @@ pub fn session(r: &mut Rng, out: &mut Out, fl: Flavour) {
         let kind = r.below(3) as u8;
         for _ in 0..r.range(1, 3) {
             let mut labels: Vec<(String, String)> = vec![];
-            for _ in 0..r.below(4) {
+            // C07, histograms: a second registry key that renders to the SAME series as the previous one (a label
+            // name spelt differently with the same sanitised form, or simply the same key again): the exporter folds
+            // both buckets into one distribution, `_count`/`_sum` are those of all samples of both keys
+            let collide = v7 && kind == 2 && r.chance(1, 4) && series.last().map_or(false, |p: &Series| p.name == *raw);
+            if collide {
+                labels = series.last().unwrap().labels.clone();
+                if let Some(l) = labels.iter_mut().find(|(k, _)| {
+                    (k.contains('-') || k.starts_with('9'))
+                        && !cfg.globals.iter().any(|(g, _)| own_sanitize(g, false) == own_sanitize(k, false))
+                }) {
+                    l.0 = own_sanitize(&l.0, false);
+                }
+                out.count("series.colliding_histogram_keys");
+            }
+            for _ in 0..(if collide { 0 } else { r.below(4) }) {
                 // sometimes override a global label by using its exact name
                 let k = if !cfg.globals.is_empty() && r.chance(1, 4) {
                     cfg.globals[r.below(cfg.globals.len())].0.clone()
@@ -312,7 +371,7 @@ pub fn session(r: &mut Rng, out: &mut Out, fl: Flavour) {
             let (pn, pl) = metrics_exporter_prometheus::formatting::key_to_parts(&key, Some(&gl));
             let mut sorted = pl.clone();
             sorted.sort();
-            if seen_ids.insert(format!("{}{:?}", pn, sorted)) {
+            if seen_ids.insert(format!("{}{:?}", pn, sorted)) || collide {
                 series.push(Series {
                     kind,
                     name: raw.clone(),
@@ -377,7 +436,40 @@ pub fn session(r: &mut Rng, out: &mut Out, fl: Flavour) {
                     }
                     1 => {
                         let g = rec.register_gauge(&s.key, &META);
-                        if r.chance(1, 6) {
+                        if v7 && r.chance(1, 4) {
+                            // C07: the whole argument domain of increment/decrement — negative arguments, arguments
+                            // and current values that are not f32-representable, NaN/±inf/extreme on either side.
+                            // Exact dyadic case → model `gadd`; otherwise the tally follows IEEE (`cur ± x`, the
+                            // documented meaning) and the model is told the resulting bit pattern (`gset`), since
+                            // IEEE rounding is outside the model.
+                            let x = if r.chance(1, 3) {
+                                *r.pick(&wild_gauge)
+                            } else {
+                                let m = ((1i64 << 25) + r.range(0, 1 << 30) as i64) | 1;
+                                dy(if r.chance(1, 2) { m } else { -m })
+                            };
+                            let inc = r.chance(1, 2);
+                            if inc {
+                                g.increment(x);
+                            } else {
+                                g.decrement(x);
+                            }
+                            let before = s.g_val;
+                            s.g_val = if inc { before + x } else { before - x };
+                            if s.g_val.is_nan() {
+                                s.g_val = f64::NAN; // the text form has one NaN; its sign/payload is not observable
+                            }
+                            let exact = !s.g_wild && val_tok(x).starts_with('d') && val_tok(s.g_val).starts_with('d');
+                            if exact {
+                                let m = (x * 1024.0) as i64;
+                                out.op(&format!("prom gadd {} {}", key_tok(s), if inc { m } else { -m }), "ok");
+                                out.count("op.gadd.signed_big");
+                            } else {
+                                out.op(&format!("prom gset {} {}", key_tok(s), val_tok(s.g_val)), "ok");
+                                s.g_wild = !(val_tok(s.g_val).starts_with('d') && s.g_val.abs() < 1e12);
+                                out.count("op.gadd.ieee(model:gset)");
+                            }
+                        } else if r.chance(1, 6) {
                             let v = *r.pick(&wild_gauge);
                             g.set(v);
                             s.g_val = v;
@@ -407,7 +499,18 @@ pub fn session(r: &mut Rng, out: &mut Out, fl: Flavour) {
                         let h = rec.register_histogram(&s.key, &META);
                         let reps = if r.chance(1, 10) { r.range(60, 140) } else { r.range(1, 3) };
                         for _ in 0..reps {
-                            let n = if r.chance(1, 3) {
+                            let n = if v7 && r.chance(1, 5) {
+                                // C07: samples that are NOT f32-representable (odd numerator of more than 24 bits) —
+                                // a detour through f32, or a fixed-precision rendering of `_sum`, would change them
+                                // (all partial sums of a session stay below 2^53/1024, so they are exact)
+                                let m = ((1i64 << 25) + r.range(0, 1 << 30) as i64) | 1;
+                                out.count("op.hrec.not_f32_representable");
+                                if r.chance(1, 2) {
+                                    m
+                                } else {
+                                    -m
+                                }
+                            } else if r.chance(1, 3) {
                                 // values equal to bounds are the interesting ones
                                 match (&cfg.buckets, cfg.overrides.first()) {
                                     (Some(b), _) => *r.pick(b),
@@ -417,6 +520,17 @@ pub fn session(r: &mut Rng, out: &mut Out, fl: Flavour) {
                             } else {
                                 r.range(0, 8192) as i64 - 4096
                             };
+                            if v7 && r.chance(1, 6) {
+                                // `Histogram::record_many` on the exporter's own handle: `c` samples of the same value
+                                let c = *r.pick(&[0usize, 1, 2, 3, 63, 64, 65, 130]);
+                                h.record_many(dy(n), c);
+                                s.h_count += c as u64;
+                                s.h_sum += n * c as i64;
+                                s.h_vals.extend(std::iter::repeat(n).take(c));
+                                out.op(&format!("prom hrecmany {} {} {}", key_tok(s), n, c), "ok");
+                                out.count("op.hrecmany");
+                                continue;
+                            }
                             h.record(dy(n));
                             s.h_count += 1;
                             s.h_sum += n;
@@ -532,6 +646,20 @@ fn oracle_render(
                 }
             }
             _ => {
+                // several registry keys may render to this one series (C07 generates such pairs): what the series must
+                // show is the tally of all of them
+                let mut agg = s.clone();
+                for t in series {
+                    if t.kind == 2 && !std::ptr::eq(t, s) {
+                        let (tn, tl) = metrics_exporter_prometheus::formatting::key_to_parts(&t.key, Some(&gl));
+                        if tn == pn && tl == pl {
+                            agg.h_count += t.h_count;
+                            agg.h_sum += t.h_sum;
+                            agg.h_vals.extend(t.h_vals.iter().cloned());
+                        }
+                    }
+                }
+                let s = &agg;
                 let cnt = mine.iter().find(|(n, _, _)| *n == format!("{}_count", fam_name)).map(|x| x.2.clone());
                 let sum = mine.iter().find(|(n, _, _)| *n == format!("{}_sum", fam_name)).map(|x| x.2.clone());
                 if cnt != Some(s.h_count.to_string()) {
@@ -577,6 +705,9 @@ fn oracle_render(
                         });
                         let ok = if s.h_vals.is_empty() {
                             q == 0.0
+                        } else if cfg.bucket_duration_ns.is_some() && q == 0.0 {
+                            // configured tiny window: every sample may have aged out of the summary already
+                            true
                         } else {
                             // all samples are within the window here (sessions last milliseconds);
                             // DDSketch relative accuracy 1e-4
